@@ -67,6 +67,17 @@ type vcfsScenario struct {
 	FailPct  int    `json:"failpct"`  // rate: percent of PutB calls failing
 	NameMode string `json:"namemode"` // "" (symbols are the names) | "bytes" (names drawn from 0x01-0xff except '/')
 	Saves    int    `json:"saves"`    // C09: number of save points
+	FSteps   []vcfsFStep `json:"fsteps"` // C09 mode "flushdir"
+}
+
+// one step of a CollFSFlushDir.tla scenario (C09, mode "flushdir")
+type vcfsFStep struct {
+	Op     string          `json:"op"` // append | flush | marshal | marshalend | expect
+	F      string          `json:"f"`
+	D      string          `json:"d"`
+	Path   string          `json:"path"`
+	Short  bool            `json:"short"`
+	Stored map[string]bool `json:"stored"`
 }
 
 type vcfsEvent map[string]interface{}
